@@ -271,12 +271,16 @@ Section Meaning.
     | _ => false
     end.
 
-  (* the open finding F-C09-mdc-first-piece: literal MDC arguments that do not
-     consist of exactly one piece (only the first piece is used by the code) *)
+  (* the open finding F-C09-mdc-first-piece: literal MDC arguments made of
+     more than one piece (only the first piece is used by the code).  An EMPTY
+     key/default argument is rejected by the code with a visible error
+     ({ERROR: invalid MDC key}); it is neither well-formed for the positive
+     theorem nor in the finding class. *)
   Definition mdc_first_piece_class (args : list (list ast)) : bool :=
     match args with
-    | [k] => plain k && negb (single k)
-    | [k; d] => plain k && plain d && negb (single k && single d)
+    | [k] => plain k && negb (is_nil k) && negb (single k)
+    | [k; d] => plain k && plain d && negb (is_nil k) && negb (is_nil d)
+                && negb (single k && single d)
     | _ => false
     end.
 
